@@ -1,5 +1,21 @@
 #!/bin/sh
 # MANIFEST.setup_cmd: build the framework from files on disk only (offline).
-set -e
-cd /verif/lean && lake build 2>&1 | tail -3
-cd /verif/harness && cp /repo/Cargo.lock Cargo.lock && CARGO_NET_OFFLINE=true RUSTFLAGS="--cfg bzsanti_oxidizepdf_verif" cargo build --offline --bins 2>&1 | tail -3
+# Builds what the claimed checks need; every check rebuilds incrementally anyway, so a failure
+# here is reported but does not stop the remaining builds.
+cd /verif
+IDS=$(python3 -c "import json;print(' '.join(c['property_id'] for c in json.load(open('MANIFEST.json'))['checks']))")
+cd /verif/lean
+lake build OxiVerif.Base.Driver OxiVerif.Base.Audit 2>&1 | tail -1
+for id in $IDS; do
+  low=$(echo "$id" | tr 'A-Z' 'a-z')
+  lake build "OxiVerif.Props.$id" "drv_$low" 2>&1 | tail -1
+done
+cd /verif/harness && cp /repo/Cargo.lock Cargo.lock
+export CARGO_NET_OFFLINE=true RUSTFLAGS="--cfg bzsanti_oxidizepdf_verif"
+for id in $IDS; do
+  low=$(echo "$id" | tr 'A-Z' 'a-z')
+  dir=$(python3 -c "import json,os;p='/verif/tools/props/$id.json';print(json.load(open(p)).get('harness_dir','harness') if os.path.exists(p) else 'harness')")
+  bin=$(python3 -c "import json,os;p='/verif/tools/props/$id.json';print(json.load(open(p)).get('bin','$low') if os.path.exists(p) else '$low')")
+  (cd "/verif/$dir" && cargo build --offline --bin "$bin" 2>&1 | tail -1)
+done
+exit 0
